@@ -425,9 +425,9 @@ func main() {
 				if err != nil {
 					mismatches = append(mismatches, fmt.Sprintf("free-running pass crashed: %v\n%s", err, tail(buf.String(), 3000)))
 				}
-			case <-time.After(15 * time.Minute):
+			case <-time.After(4 * time.Minute):
 				cmd.Process.Kill()
-				mismatches = append(mismatches, "free-running pass timed out")
+				mismatches = append(mismatches, "free-running pass of the concurrent harness bodies on the pristine build did not finish within 4 minutes (real deadlock or livelock?)")
 			}
 			if b, err := os.ReadFile(of); err == nil {
 				var r WorkerResult
@@ -621,11 +621,14 @@ func main() {
 		a := aggs[n]
 		fmt.Printf("  profile %-10s exec=%-9d states=%-7d outcomes=%-8d exhaustive=%v\n", n, a.exec, len(a.states), len(a.outcomes), !a.truncated)
 	}
-	if len(mismatches) > 0 {
+	if len(mismatches) > 0 && len(newViol) == 0 {
 		for _, m := range mismatches {
 			fmt.Fprintln(os.Stderr, "BINDING-MISMATCH:", m)
 		}
 		die(2, "instrumented and pristine builds disagree (framework error, no verdict)")
+	}
+	for _, m := range mismatches {
+		fmt.Fprintln(os.Stderr, "note (pristine build):", tail(m, 600))
 	}
 	var whats []string
 	for w := range knownHit {
